@@ -99,6 +99,8 @@ type listener struct {
 	M     uint64
 	reps  []g.Report
 	tasks []taskObs
+	// noSnap: no core snapshot per task (cores above 64 cells)
+	noSnap bool
 }
 
 func (l *listener) snap() []g.Instruction {
@@ -111,7 +113,9 @@ func (l *listener) snap() []g.Instruction {
 
 func (l *listener) Report(r g.Report) {
 	l.reps = append(l.reps, r)
-	if r.Type == g.WarriorTaskPop {
+	if r.Type == g.WarriorTaskPop && l.noSnap {
+		l.tasks = append(l.tasks, taskObs{W: r.WarriorIndex, PC: uint64(r.Address), RepStart: len(l.reps)})
+	} else if r.Type == g.WarriorTaskPop {
 		l.tasks = append(l.tasks, taskObs{W: r.WarriorIndex, PC: uint64(r.Address), Before: l.snap(), RepStart: len(l.reps)})
 	}
 }
@@ -237,7 +241,9 @@ func (c *Checker) Check(b *Battle) {
 		return
 	}
 	c.Rep.States++
-	if c.Props.C02 || c.Props.C04 || c.Props.C15 {
+	if b.M > 64 && (c.Props.C02 || c.Props.C04) {
+		c.stepwiseBig(b)
+	} else if c.Props.C02 || c.Props.C04 || c.Props.C15 {
 		c.stepwise(b)
 	}
 	if c.Props.C12 {
@@ -518,6 +524,9 @@ func (c *Checker) compareRun(b *Battle, m *ref.Mars, pre int) {
 				}
 				if !ok {
 					c.fail("C02", "run-vs-stepping", b, func() string {
+						if b.M > 64 {
+							return fmt.Sprintf("Run() after %d stepped cycles: result=%v cycles=%d, %d queues; stepping/reference: cycles=%d; %s", pre, f.Res, f.Cycles, len(f.Queues), m.Cycles, diffCore(f.Core, m.Core))
+						}
 						return fmt.Sprintf("Run() after %d stepped cycles: result=%v cycles=%d core=%s queues=%v; stepping/reference: cycles=%d core=%s", pre, f.Res, f.Cycles, hx.CoreStr(f.Core), f.Queues, m.Cycles, hx.CoreStr(m.Core))
 					})
 				}
